@@ -238,8 +238,9 @@ def r2_code_equals_documentation(ctx):
                         return v_
             return NotImplemented
 
+        N0 = F.sym("N0")   # nonlinear force of the start-up step (sum_k T_k z_k(d, 0, h)), zero when no nonlinear terms are defined
         ev = Evaluator(env={"force": f, "self.h": h, "self.k": K_, "self.b": B_, "self.Ad": Ad, "self.A1": F.sym("A1p"), "self.A0": F.sym("A0p"),
-                            "self.n": F.sym("n")}, cond=cond, src=ctx.src, call=call, subscript=sub)
+                            "self.n": F.sym("n")}, cond=cond, src=ctx.src, call=call, subscript=sub, pinned={"N": N0})
         ev.run(ini.body)
         tag = f"SolveNewmark._init_dva ({'uncoupled' if unc else 'coupled'})"
         u1 = ev.env.get("u_1")
@@ -252,9 +253,9 @@ def r2_code_equals_documentation(ctx):
             continue
         um1 = d0 - v0 * h
         # documented: A u_1 = (F_1 + F_0 + F_-1)/3 + A_1 u_0 + A_0 u_-1 with F_0 := K u0 + B v0, F_-1 = K u_-1 + B v0 ; A1p = A_1/A, A0p = A_0/A
-        want = (f[1] + (K_ * d0 + B_ * v0) + (K_ * um1 + B_ * v0)) / (3 * Ad) + F.sym("A1p") * d0 + F.sym("A0p") * um1
+        want = (f[1] + (K_ * d0 + B_ * v0) + (K_ * um1 + B_ * v0)) / (3 * Ad) + N0 + F.sym("A1p") * d0 + F.sym("A0p") * um1
         ok = d1[-1].equals(want)
-        ctx.check(ok, f"{tag}: the first step uses F_0 := K u_0 + B v_0, F_-1 = K u_-1 + B v_0 and u_-1 in the documented recurrence", ini,
+        ctx.check(ok, f"{tag}: the first step uses F_0 := K u_0 + B v_0, F_-1 = K u_-1 + B v_0, u_-1 and the start-up nonlinear term N_0 in the documented recurrence", ini,
                   None if ok else {"code": repr(d1[-1]), "documented": repr(want)})
         ok = bool(a0) and not is_unknown(a0[-1]) and a0[-1].equals((d1[-1] - 2 * d0 + um1) / (h * h))
         ctx.check(ok, f"{tag}: initial acceleration is the central difference (u_1 - 2 u_0 + u_-1)/h^2", ini, None if ok else repr(a0[-1]) if a0 else None)
